@@ -221,3 +221,21 @@ Proof.
   { intros r Hin. apply H. eapply Permutation_in; [apply Permutation_sym, Pm | exact Hin]. }
   rewrite !eval_pdef_plain by assumption. apply flat_mapM_perm, Pm.
 Qed.
+
+(* ---------- order of disjuncts ---------- *)
+Lemma map_perm {A B} (f : A -> B) l l' : Permutation l l' -> Permutation (map f l) (map f l').
+Proof. apply Permutation_map. Qed.
+
+Theorem dnf_disjunct_order ps ps' : Permutation ps ps' -> Permutation (dnf (POr ps)) (dnf (POr ps')).
+Proof. intros H. rewrite !dnf_POr. apply concat_perm, Permutation_map, H. Qed.
+
+Theorem eval_rule_disjunct_order P D h dis ps ps' : Permutation ps ps' ->
+  match eval_rule P D {| r_head := h; r_distinct := dis; r_body := POr ps |},
+        eval_rule P D {| r_head := h; r_distinct := dis; r_body := POr ps' |} with
+  | Ok a, Ok b => Permutation a b
+  | Fail _, Fail _ => True
+  | _, _ => False
+  end.
+Proof.
+  intros H. unfold eval_rule. cbn [r_body r_head]. apply flat_mapM_perm, dnf_disjunct_order, H.
+Qed.
